@@ -276,14 +276,18 @@ def strip_stray_text(text):
         elif tok is MSDToken.TEXT:
             if inside:
                 out.append(val)
-            elif val.isspace() or val == "\ufeff":
+            elif val.isspace():
                 out.append(val)
+            elif val == "\ufeff":
+                # the tokenizer ignores a text token that is exactly a BOM; blank it so
+                # that it cannot merge with neighbouring blanks into a non-blank token
+                out.append(" ")
             else:
-                # Replace the stray token by one blank character that ends a line
-                # exactly when the token did, so that the tokenizer's
-                # missing-semicolon recovery (which looks at the last text token)
-                # sees the same line structure with and without the stray text.
-                out.append(val[-1] if val[-1] in "\r\n" else " ")
+                # Blank out the stray token character by character, keeping its line
+                # breaks, so that comments still end where they ended and the
+                # tokenizer's missing-semicolon recovery (which looks at whether the
+                # last text token ends a line) sees the same line structure.
+                out.append("".join(c if c in "\r\n" else " " for c in val))
         elif tok is MSDToken.COMMENT:
             out.append(val)
         else:
